@@ -589,4 +589,638 @@ theorem runNodeUpdate_dyn {fuel : Nat} {r : Root} {cur : Id} {n : Node} {eq : Eq
       · rw [d3]; simp [unlinked, hj]
       · rw [d4]; simp [unlinked, hj]
 
+/-! ### 5. transformers that only touch `mark` and `dirty` -/
+
+theorem FlagsRel.alive_eq {r r' : Root} (h : FlagsRel r r') (j : Id) : r'.alive j = r.alive j := by
+  obtain ⟨g, _, e⟩ := h j
+  simp [Root.alive, e]
+
+theorem FlagsRel.edges {r r' : Root} (h : FlagsRel r r') :
+    (NoDangling r → NoDangling r') ∧ (EdgesSym r → EdgesSym r') :=
+  sameEdges_preserves fun j => by
+    obtain ⟨g, hg, e⟩ := h j
+    exact ⟨g, fun m => ⟨(hg m).2.2.2.2.1, (hg m).2.2.2.2.2.1⟩, e⟩
+
+theorem FlagsRel.structD {r r' : Root} (h : FlagsRel r r') (hS : StructD r) : StructD r' := by
+  refine ⟨h.edges.1 hS.nd, h.edges.2 hS.sym, fun j m' hm' => ?_⟩
+  obtain ⟨m, hm, e1, e2, e3, _, _, e6, e7, _⟩ := h.bwd hm'
+  have hk := hS.node j m hm
+  refine ⟨by rw [e1]; exact hk.value, fun hc => by rw [e6]; exact hk.plain (e2 ▸ hc), fun eq cl hc => ?_⟩
+  obtain ⟨a1, a2, a3, a4, a5, a6⟩ := hk.comp eq cl (e2 ▸ hc)
+  exact ⟨e3.trans a1, e7.trans a2, a3, a4, fun d hd => by rw [h.alive_eq]; exact a5 d hd,
+    fun d hd => a6 d (e6 ▸ hd)⟩
+
+/-- the dependency list of `n` is the list of tracked reads of its body on the current values: the
+reads of its latest run are the reads of a run now -/
+def DepsCurrent (r : Root) (n : Node) : Prop :=
+  ∀ eq cl, n.callback = some (eq, cl) → n.dependencies = trackedReads r cl.env cl.body
+
+/-- local consistency and `DepsCurrent` only look at the node itself and at the values of what its
+body reads on the branch taken -/
+theorem settled_congr {r r' : Root} {j : Id} {n n' : Node} (hn : r.get? j = some n)
+    (hn' : r'.get? j = some n') (hc : n'.callback = n.callback) (hv : n'.value = n.value)
+    (hd : n'.dependencies = n.dependencies)
+    (hb : ∀ eq cl, n.callback = some (eq, cl) →
+      ∀ id ∈ trackedReads r cl.env cl.body, getUntracked r' id = getUntracked r id)
+    (h : locallyConsistent r j ∧ DepsCurrent r n) : locallyConsistent r' j ∧ DepsCurrent r' n' := by
+  obtain ⟨h1, h2⟩ := h
+  constructor
+  · unfold locallyConsistent at *
+    rw [hn']; rw [hn] at h1
+    simp only [hc, hv]
+    cases hcb : n.callback with
+    | none => simp
+    | some p =>
+      obtain ⟨eq, cl⟩ := p
+      cases hval : n.value with
+      | none => simp
+      | some v =>
+        simp only [evalPure_congr (hb eq cl hcb)]
+        simpa [hcb, hval] using h1
+  · intro eq cl hcb
+    rw [hc] at hcb
+    rw [hd, h2 eq cl hcb, trackedReads_congr (hb eq cl hcb)]
+
+theorem FlagsRel.settled {r r' : Root} (h : FlagsRel r r') {j : Id} {n n' : Node}
+    (hn : r.get? j = some n) (hn' : r'.get? j = some n')
+    (hl : Reactive.locallyConsistent r j ∧ DepsCurrent r n) :
+    Reactive.locallyConsistent r' j ∧ DepsCurrent r' n' := by
+  obtain ⟨n'', hn'', e1, e2, _, _, _, e6, _⟩ := h.fwd hn
+  rw [hn'] at hn''; cases hn''
+  exact settled_congr hn hn' e2 e1 e6 (fun _ _ _ id _ => h.getUntracked id) hl
+
+/-! ### 6. the schedule -/
+
+theorem Sched.mono_mem {dep dep' : Id → Id → Prop} :
+    ∀ {l : List Id}, (∀ i ∈ l, ∀ d, dep' i d → dep i d) → Sched dep l → Sched dep' l
+  | [], _, _ => trivial
+  | i :: _, h, ⟨h1, h2, h3⟩ =>
+    ⟨h1, fun d hd => h2 d (h i (by simp) d hd), Sched.mono_mem (fun j hj => h j (by simp [hj])) h3⟩
+
+/-- in a schedule every `dep`-successor of a member is a member -/
+theorem Sched.mem_of_dep {dep : Id → Id → Prop} :
+    ∀ {l : List Id}, Sched dep l → ∀ i ∈ l, ∀ d, dep i d → d ∈ l
+  | [], _, i, hi, _, _ => by cases hi
+  | a :: rest, ⟨_, h2, h3⟩, i, hi, d, hd => by
+    rcases List.mem_cons.1 hi with rfl | hi
+    · exact List.mem_cons_of_mem _ (h2 d hd)
+    · exact List.mem_cons_of_mem _ (Sched.mem_of_dep h3 i hi d hd)
+
+theorem depsOf_of_get? {r : Root} {j : Id} {n : Node} (h : r.get? j = some n) :
+    depsOf r j = n.dependencies := by simp [depsOf, h]
+
+/-! ### 7. what a propagation may change (dynamic graphs) -/
+
+/-- as `Evolves`, but a computation that ran may have a new dependency list -/
+structure EvolvesD (r r' : Root) (ran : List Event) : Prop where
+  frame : r'.nodes.size = r.nodes.size ∧ r'.tracker = r.tracker ∧ r'.current = r.current ∧
+    r'.rootNode = r.rootNode ∧ r'.queue = r.queue ∧ r'.batching = r.batching ∧ r'.nextTag = r.nextTag
+  trace : r'.trace = r.trace ++ ran
+  runs : ∀ e ∈ ran, ∃ id obs v, e = .run id obs v
+  dead : ∀ j, r.get? j = none → r'.get? j = none
+  node : ∀ j m, r.get? j = some m → ∃ m', r'.get? j = some m' ∧
+    m'.callback = m.callback ∧ m'.children = m.children ∧
+    m'.cleanups = m.cleanups ∧ m'.parent = m.parent ∧
+    (m.callback = none → m'.value = m.value ∧ m'.dependencies = m.dependencies) ∧
+    (j ∉ runIds ran → m'.value = m.value ∧ m'.dependencies = m.dependencies)
+
+theorem Evolves.toD {r r' : Root} {ran : List Event} (h : Evolves r r' ran) : EvolvesD r r' ran := by
+  refine ⟨h.frame, h.trace, h.runs, h.dead, fun j m hm => ?_⟩
+  obtain ⟨m', hm', c1, c2, c3, c4, c5, c6, c7⟩ := h.node j m hm
+  exact ⟨m', hm', c1, c3, c4, c5, fun hc => ⟨c6 hc, c2⟩, fun hj => ⟨c7 hj, c2⟩⟩
+
+theorem EvolvesD.trans {a b c : Root} {r1 r2 : List Event} (h1 : EvolvesD a b r1) (h2 : EvolvesD b c r2) :
+    EvolvesD a c (r1 ++ r2) := by
+  obtain ⟨a1, a2, a3, a4, a5, a6, a7⟩ := h1.frame
+  obtain ⟨b1, b2, b3, b4, b5, b6, b7⟩ := h2.frame
+  refine ⟨⟨b1.trans a1, b2.trans a2, b3.trans a3, b4.trans a4, b5.trans a5, b6.trans a6, b7.trans a7⟩,
+    by rw [h2.trace, h1.trace, List.append_assoc], ?_, fun j hj => h2.dead j (h1.dead j hj), ?_⟩
+  · intro e he
+    rcases List.mem_append.1 he with he | he
+    · exact h1.runs e he
+    · exact h2.runs e he
+  · intro j m hm
+    obtain ⟨m1, hm1, c1, c3, c4, c5, c6, c7⟩ := h1.node j m hm
+    obtain ⟨m2, hm2, d1, d3, d4, d5, d6, d7⟩ := h2.node j m1 hm1
+    refine ⟨m2, hm2, d1.trans c1, d3.trans c3, d4.trans c4, d5.trans c5,
+      fun hc => ⟨(d6 (c1.trans hc)).1.trans (c6 hc).1, (d6 (c1.trans hc)).2.trans (c6 hc).2⟩, fun hj => ?_⟩
+    rw [runIds_append, List.mem_append, not_or] at hj
+    exact ⟨(d7 hj.2).1.trans (c7 hj.1).1, (d7 hj.2).2.trans (c7 hj.1).2⟩
+
+theorem RunPostD.evolvesD {r r' : Root} {cur : Id} {vf : Int} {ch : Bool} {nd : List Id} {obs : List Obs}
+    {v : Int} {n : Node} (h : RunPostD r cur vf ch nd (.run cur obs v) r') (hn : r.get? cur = some n)
+    (hc : n.callback ≠ none) : EvolvesD r r' [.run cur obs v] := by
+  refine ⟨h.frame, h.trace, fun e he => ⟨cur, obs, v, by simpa using he⟩, h.dead, fun j m hm => ?_⟩
+  obtain ⟨m', hm', c1, c3, c4, c5, _, c7, _⟩ := h.node j m hm
+  refine ⟨m', hm', c1, c3, c4, c5, fun hcn => ?_, fun hj => ?_⟩
+  · have hj : j ≠ cur := by rintro rfl; rw [hn] at hm; cases hm; exact hc hcn
+    exact ⟨(c7 hj).2.1, (c7 hj).1⟩
+  · have hj : j ≠ cur := by simpa [runIds] using hj
+    exact ⟨(c7 hj).2.1, (c7 hj).1⟩
+
+/-- every body costs at most `B` -/
+def PureBound (r : Root) (B : Nat) : Prop :=
+  ∀ j n eq cl, r.get? j = some n → n.callback = some (eq, cl) → pureCost cl.body ≤ B
+
+theorem EvolvesD.pureBound {r r' : Root} {ran : List Event} (h : EvolvesD r r' ran) {B : Nat}
+    (hb : PureBound r B) : PureBound r' B := by
+  intro j n' eq cl hn' hc
+  cases hm : r.get? j with
+  | none => rw [h.dead j hm] at hn'; cases hn'
+  | some m =>
+    obtain ⟨m', hm', c1, _⟩ := h.node j m hm
+    rw [hn'] at hm'; cases hm'
+    exact hb j m eq cl hm (c1 ▸ hc)
+
+/-! ### 8. the loop invariant -/
+
+/-- the state of `propagateLoop` with `Pn` still to be visited: every clean node is consistent and
+its dependency list is current; every live dependent of a pending node is pending and later -/
+structure LoopInvD (r : Root) (Pn : List Id) : Prop where
+  struct : StructD r
+  marks : ∀ j n, r.get? j = some n → n.mark = if j ∈ Pn then .perm else .none
+  pend : ∀ j ∈ Pn, r.alive j = true
+  dirty : ∀ j n, r.get? j = some n → n.dirty = true → j ∈ Pn ∧ n.callback ≠ none
+  cons : ∀ j n, r.get? j = some n → n.dirty = false → locallyConsistent r j ∧ DepsCurrent r n
+  sched : Sched (fun i d => i ∈ depsOf r d) Pn
+
+/-- clearing the mark of the head of the schedule when it is not dirty -/
+theorem LoopInvD.skip {r : Root} {node : Id} {rest : List Id} {n : Node} (h : LoopInvD r (node :: rest))
+    (hn : r.get? node = some n) (hd : n.dirty = false) :
+    LoopInvD (r.setNode node { n with mark := .none }) rest := by
+  have hF := Frame.setMark hn .none
+  have hR := hF.flagsRel
+  obtain ⟨hnot, _, hsch⟩ := h.sched
+  have hget := Dfs.get?_setNode_of_get? hn { n with mark := .none }
+  refine ⟨hR.structD h.struct, ?_, ?_, ?_, ?_, ?_⟩
+  · intro j m hm
+    rw [hget] at hm
+    split at hm
+    · subst j; cases hm; simp [hnot]
+    · rename_i hj; rw [h.marks j m hm]; simp [hj]
+  · intro j hj; rw [hF.alive]; exact h.pend j (by simp [hj])
+  · intro j m hm hdm
+    rw [hget] at hm
+    split at hm
+    · cases hm; simp [hd] at hdm
+    · rename_i hj
+      obtain ⟨h1, h2⟩ := h.dirty j m hm hdm
+      exact ⟨by simpa [hj] using h1, h2⟩
+  · intro j m hm hdm
+    have hm' := hm
+    rw [hget] at hm
+    split at hm
+    · subst j; cases hm; exact hR.settled hn hm' (h.cons _ n hn hd)
+    · exact hR.settled hm hm' (h.cons j m hm hdm)
+  · refine Sched.mono (fun i d hd => ?_) hsch
+    rwa [depsOf_eq (fun j m hm => ?_) (fun j hj => hR.dead hj)] at hd
+    obtain ⟨m', hm', _, _, _, _, _, e, _⟩ := hR.fwd hm
+    exact ⟨m', hm', e⟩
+
+/-- running the (dirty) head of the schedule, when none of the nodes it reads is still pending -/
+theorem LoopInvD.run {r r3 : Root} {node : Id} {rest : List Id} {n : Node} {eq : EqKind} {cl : Closure}
+    {old new : Int} {obs : List Obs} (h : LoopInvD r (node :: rest)) (hn : r.get? node = some n)
+    (hcb : n.callback = some (eq, cl)) (hv : n.value = some old)
+    (hev : evalPureBody (r.setNode node { n with mark := .none }) cl.env cl.body 0 = some new)
+    (hP : RunPostD (r.setNode node { n with mark := .none }) node (if eqHolds eq new old then old else new)
+      (!eqHolds eq new old) (trackedReads (r.setNode node { n with mark := .none }) cl.env cl.body)
+      (.run node obs new) r3)
+    (hlate : ∀ d ∈ trackedReads (r.setNode node { n with mark := .none }) cl.env cl.body, d ∉ rest) :
+    LoopInvD r3 rest := by
+  have hF := Frame.setMark hn .none
+  have hR := hF.flagsRel
+  obtain ⟨hnot, hdeps, hsch⟩ := h.sched
+  obtain ⟨r2, hr2⟩ : ∃ r2, r2 = r.setNode node { n with mark := .none } := ⟨_, rfl⟩
+  rw [← hr2] at hF hR hev hP hlate
+  have hget : ∀ j, r2.get? j = if j = node then some { n with mark := .none } else r.get? j := by
+    intro j; rw [hr2]; exact Dfs.get?_setNode_of_get? hn _ j
+  have hn2 : r2.get? node = some { n with mark := .none } := by rw [hget, if_pos rfl]
+  have hS2 := hR.structD h.struct
+  have hother : ∀ j, j ≠ node → r2.get? j = r.get? j := fun j hj => by rw [hget, if_neg hj]
+  obtain ⟨_, _, hpure, hok, _, _⟩ := (h.struct.node node n hn).comp eq cl hcb
+  have hrlt : ∀ id ∈ trackedReads r2 cl.env cl.body, id ≠ node := fun id hid =>
+    Nat.ne_of_lt (allReads_lt _ hok id (trackedReads_subset _ id hid))
+  -- every node of `r3` comes from a node of `r2`
+  have back : ∀ j m3, r3.get? j = some m3 → ∃ m2, r2.get? j = some m2 ∧
+      m3.callback = m2.callback ∧ m3.children = m2.children ∧
+      m3.cleanups = m2.cleanups ∧ m3.mark = m2.mark ∧
+      (j ≠ node → m3.dependencies = m2.dependencies ∧ m3.value = m2.value ∧
+        m3.dirty = (m2.dirty || (!eqHolds eq new old && decide (node ∈ m2.dependencies)))) ∧
+      (j = node → m3.dependencies = trackedReads r2 cl.env cl.body ∧
+        m3.value = some (if eqHolds eq new old then old else new) ∧ m3.dirty = false) := by
+    intro j m3 hm3
+    cases hm2 : r2.get? j with
+    | none => rw [hP.dead j hm2] at hm3; cases hm3
+    | some m2 =>
+      obtain ⟨m', hm', c1, c3, c4, _, c6, c7, c8⟩ := hP.node j m2 hm2
+      rw [hm3] at hm'; cases hm'
+      exact ⟨m2, rfl, c1, c3, c4, c6, fun hj => ⟨(c7 hj).1, (c7 hj).2.1, (c7 hj).2.2.2⟩, c8⟩
+  have halive3 : ∀ d, r2.alive d = true → r3.alive d = true := by
+    intro d hd
+    obtain ⟨m, hm⟩ := Root.alive_iff.1 hd
+    obtain ⟨m', hm', _⟩ := hP.node d m hm
+    exact Root.alive_iff.2 ⟨m', hm'⟩
+  -- values seen by `getUntracked`
+  have hval : ∀ id, (id ≠ node ∨ eqHolds eq new old = true) → getUntracked r3 id = getUntracked r2 id := by
+    intro id hid
+    apply getUntracked_congr
+    cases hm2 : r2.get? id with
+    | none => rw [hP.dead id hm2]
+    | some m2 =>
+      obtain ⟨m', hm', _, _, _, _, _, c7, c8⟩ := hP.node id m2 hm2
+      rw [hm']
+      by_cases hj : id = node
+      · subst hj
+        rw [hn2] at hm2; cases hm2
+        rcases hid with hid | hid
+        · exact absurd rfl hid
+        · simp [(c8 rfl).2.1, hid, hv]
+      · simp [(c7 hj).2.1]
+  -- dependency lists of the other nodes
+  have hdepsOf : ∀ j, j ≠ node → depsOf r3 j = depsOf r j := by
+    intro j hj
+    cases hm : r.get? j with
+    | none =>
+      have h2 : r2.get? j = none := by rw [hother j hj, hm]
+      simp [depsOf, hm, hP.dead j h2]
+    | some m =>
+      have h2 : r2.get? j = some m := by rw [hother j hj, hm]
+      obtain ⟨m', hm', _, _, _, _, _, c7, _⟩ := hP.node j m h2
+      rw [depsOf_of_get? hm', depsOf_of_get? hm, (c7 hj).1]
+  refine ⟨⟨hP.nd, hP.sym, fun j m3 hm3 => ?_⟩, ?_, ?_, ?_, ?_, ?_⟩
+  · -- DynNodeOk
+    obtain ⟨m2, hm2, c1, c3, c4, _, c7, c8⟩ := back j m3 hm3
+    have hk := hS2.node j m2 hm2
+    refine ⟨?_, fun hc => ?_, fun eq' cl' hc => ?_⟩
+    · by_cases hj : j = node
+      · rw [(c8 hj).2.1]; rfl
+      · rw [(c7 hj).2.1]; exact hk.value
+    · have hj : j ≠ node := by
+        rintro rfl; rw [hn2] at hm2; cases hm2; rw [c1] at hc; simp [hcb] at hc
+      rw [(c7 hj).1]; exact hk.plain (c1 ▸ hc)
+    · obtain ⟨a1, a2, a3, a4, a5, a6⟩ := hk.comp eq' cl' (c1 ▸ hc)
+      refine ⟨c3.trans a1, c4.trans a2, a3, a4, fun d hd => halive3 d (a5 d hd), fun d hd => ?_⟩
+      by_cases hj : j = node
+      · subst hj
+        rw [hn2] at hm2; cases hm2
+        have : (eq', cl') = (eq, cl) := by
+          have := c1 ▸ hc; simpa [hcb] using this.symm
+        cases this
+        rw [(c8 rfl).1] at hd
+        exact trackedReads_subset _ d hd
+      · rw [(c7 hj).1] at hd; exact a6 d hd
+  · -- marks
+    intro j m3 hm3
+    obtain ⟨m2, hm2, _, _, _, c6, _⟩ := back j m3 hm3
+    rw [c6]
+    rw [hget] at hm2
+    split at hm2
+    · subst j; cases hm2; simp [hnot]
+    · rename_i hj; rw [h.marks j m2 hm2]; simp [hj]
+  · -- pending nodes are alive
+    intro j hj
+    apply halive3
+    rw [hF.alive]; exact h.pend j (by simp [hj])
+  · -- dirty nodes are pending computations
+    intro j m3 hm3 hd3
+    obtain ⟨m2, hm2, c1, _, _, _, c7, c8⟩ := back j m3 hm3
+    by_cases hj : j = node
+    · rw [(c8 hj).2.2] at hd3; cases hd3
+    · rw [hother j hj] at hm2
+      rw [(c7 hj).2.2] at hd3
+      rw [c1]
+      cases hdm : m2.dirty with
+      | true =>
+        obtain ⟨h1, h2⟩ := h.dirty j m2 hm2 hdm
+        exact ⟨by simpa [hj] using h1, h2⟩
+      | false =>
+        simp only [hdm, Bool.false_or, Bool.and_eq_true, decide_eq_true_eq] at hd3
+        refine ⟨hdeps j (by simp [depsOf, hm2, hd3.2]), fun hc => ?_⟩
+        rw [(h.struct.node j m2 hm2).plain hc] at hd3
+        exact absurd hd3.2 (by simp)
+  · -- clean nodes are consistent and their dependency lists are current
+    intro j m3 hm3 hd3
+    obtain ⟨m2, hm2, c1, _, _, _, c7, c8⟩ := back j m3 hm3
+    by_cases hj : j = node
+    · subst hj
+      rw [hn2] at hm2; cases hm2
+      have hcg : ∀ id ∈ trackedReads r2 cl.env cl.body, getUntracked r3 id = getUntracked r2 id :=
+        fun id hid => hval id (.inl (hrlt id hid))
+      have hfresh : evalPureBody r3 cl.env cl.body 0 = some new := by
+        rw [evalPure_congr hcg]; exact hev
+      have hc3 : m3.callback = some (eq, cl) := c1.trans hcb
+      constructor
+      · unfold locallyConsistent
+        simp only [hm3, hc3, (c8 rfl).2.1, hfresh]
+        cases hq : eqHolds eq new old <;> simp [hq]
+      · intro eq' cl' hc'
+        rw [hc3] at hc'; cases hc'
+        rw [(c8 rfl).1, trackedReads_congr hcg]
+    · have hm2' := hm2
+      rw [hother j hj] at hm2
+      have hdm : m2.dirty = false := by
+        rw [(c7 hj).2.2] at hd3; cases hx : m2.dirty <;> simp [hx] at hd3 ⊢
+      have hl2 := hR.settled hm2 hm2' (h.cons j m2 hm2 hdm)
+      refine settled_congr hm2' hm3 c1 (c7 hj).2.1 (c7 hj).1 (fun eq' cl' hc id hid => hval id ?_) hl2
+      by_cases hid' : id = node
+      · right
+        rw [(c7 hj).2.2, hdm] at hd3
+        rw [← hl2.2 eq' cl' hc, hid'] at hid
+        simpa [hid] using hd3
+      · exact .inl hid'
+  · -- the schedule: the new edges of `node` come from nodes that are not pending
+    refine Sched.mono_mem (fun i hi d hd => ?_) hsch
+    by_cases hdn : d = node
+    · subst hdn
+      obtain ⟨m2', hm2', _⟩ := hP.node d _ hn2
+      obtain ⟨m2, hm2, _, _, _, _, _, c8⟩ := back d m2' hm2'
+      rw [depsOf_of_get? hm2', (c8 rfl).1] at hd
+      exact absurd hi (hlate i hd)
+    · rwa [hdepsOf d hdn] at hd
+
+/-! ### 9. the loop -/
+
+/-- the ids the computation `j` reads if it is run now (`[]` for other nodes) -/
+def readsNow (r : Root) (j : Id) : List Id :=
+  match r.get? j with
+  | some n =>
+    match n.callback with
+    | some (_, cl) => trackedReads r cl.env cl.body
+    | none => []
+  | none => []
+
+/-- the ids the computation `j` can read on any branch (`[]` for other nodes) -/
+def allReadsOf (r : Root) (j : Id) : List Id :=
+  match r.get? j with
+  | some n =>
+    match n.callback with
+    | some (_, cl) => allReads cl.env cl.body
+    | none => []
+  | none => []
+
+/-- **the trace hypothesis**: along the run of `propagateLoop fuel r Pn` (same control flow as the
+model function), no computation reads, at the moment it is re-run, a node that is still waiting in
+the schedule -/
+def NoLateRun : Nat → Root → List Id → Prop
+  | 0, _, _ => True
+  | _ + 1, _, [] => True
+  | fuel + 1, r, node :: rest =>
+    match r.get? node with
+    | none => NoLateRun fuel r rest
+    | some n =>
+      if n.dirty then
+        (∀ d ∈ readsNow (r.setNode node { n with mark := .none }) node, d ∉ rest) ∧
+        (match runNodeUpdate fuel (r.setNode node { n with mark := .none }) node with
+         | .error _ => True
+         | .ok r3 => NoLateRun fuel r3 rest)
+      else NoLateRun fuel (r.setNode node { n with mark := .none }) rest
+
+/-- one iteration of the loop on a dirty head none of whose reads is pending -/
+theorem LoopInvD.step_run {r : Root} {node : Id} {rest : List Id} {n : Node} {f B : Nat}
+    (h : LoopInvD r (node :: rest)) (hn : r.get? node = some n) (hd : n.dirty = true)
+    (hB : PureBound r B) (hf : B + 3 ≤ f)
+    (hlate : ∀ d ∈ readsNow (r.setNode node { n with mark := .none }) node, d ∉ rest) :
+    ∃ r3 obs new, runNodeUpdate f (r.setNode node { n with mark := .none }) node = .ok r3 ∧
+      LoopInvD r3 rest ∧ EvolvesD r r3 [.run node obs new] := by
+  have hF := Frame.setMark hn .none
+  have hrunI := fun eq cl old new obs r3 => h.run (r3 := r3) (eq := eq) (cl := cl) (old := old) (new := new)
+    (obs := obs) hn
+  have hn2 : (r.setNode node { n with mark := .none }).get? node = some { n with mark := .none } := by
+    rw [Dfs.get?_setNode_of_get? hn, if_pos rfl]
+  obtain ⟨r2, hr2⟩ : ∃ r2, r2 = r.setNode node { n with mark := .none } := ⟨_, rfl⟩
+  rw [← hr2] at hF hrunI hn2 hlate ⊢
+  obtain ⟨n2, hn2def⟩ : ∃ n2 : Node, n2 = { n with mark := .none } := ⟨_, rfl⟩
+  rw [← hn2def] at hn2
+  have hc2 : n2.callback = n.callback := by rw [hn2def]
+  have hv2 : n2.value = n.value := by rw [hn2def]
+  clear hr2 hn2def
+  obtain ⟨_, hcn⟩ := h.dirty node n hn hd
+  obtain ⟨⟨eq, cl⟩, hcb⟩ := Option.ne_none_iff_exists'.1 hcn
+  obtain ⟨old, hv⟩ := Option.isSome_iff_exists.1 (h.struct.node node n hn).value
+  have hS2 := hF.flagsRel.structD h.struct
+  obtain ⟨new, r3, hev, hrn, hP⟩ := runNodeUpdate_dyn (fuel := f) (eq := eq) (cl := cl) (old := old)
+    hS2 hn2 (hc2.trans hcb) (hv2.trans hv) (by have := hB node n eq cl hn hcb; omega)
+  have hrn2 : readsNow r2 node = trackedReads r2 cl.env cl.body := by
+    simp [readsNow, hn2, hc2, hcb]
+  rw [hrn2] at hlate
+  have hI3 := hrunI _ _ _ _ _ _ hcb hv hev hP hlate
+  have hE3 := hP.evolvesD hn2 (by simp [hc2, hcb])
+  exact ⟨r3, _, new, hrn, hI3, by simpa using hF.evolves.toD.trans hE3⟩
+
+/-- **the propagation loop under the trace hypothesis**: from a state satisfying the loop invariant,
+if along the run no computation reads a node that is still pending, the loop terminates without
+panic in a state where nothing is pending, having run each scheduled node at most once -/
+theorem propagateLoop_dyn_run : ∀ (Pn : List Id) (r : Root) (fuel B : Nat), LoopInvD r Pn →
+    NoLateRun fuel r Pn → PureBound r B → Pn.length + B + 4 ≤ fuel →
+    ∃ r' ran, propagateLoop fuel r Pn = .ok r' ∧ LoopInvD r' [] ∧ EvolvesD r r' ran ∧
+      (runIds ran).Sublist Pn
+  | [], r, fuel, B, h, _, _, hf => by
+    obtain ⟨f, rfl⟩ : ∃ f, fuel = f + 1 := ⟨fuel - 1, by omega⟩
+    exact ⟨r, [], by rw [propagateLoop], h, (Frame.refl r).evolves.toD, List.Sublist.refl _⟩
+  | node :: rest, r, fuel, B, h, hL, hB, hf => by
+    obtain ⟨f, rfl⟩ : ∃ f, fuel = f + 1 := ⟨fuel - 1, by omega⟩
+    simp only [List.length_cons] at hf
+    obtain ⟨n, hn⟩ := Root.alive_iff.1 (h.pend node (by simp))
+    have hF := Frame.setMark hn .none
+    have hB2 := hF.evolves.toD.pureBound hB
+    rw [propagateLoop]
+    simp only [NoLateRun, hn] at hL
+    simp only [hn]
+    by_cases hd : n.dirty = true
+    · rw [if_pos hd] at hL ⊢
+      obtain ⟨r3, obs, new, hrn, hI3, hE3⟩ := h.step_run (f := f) hn hd hB (by omega) hL.1
+      have hL3 := hL.2
+      rw [hrn] at hL3
+      obtain ⟨r', ran, hrun, hI, hE, hsub⟩ := propagateLoop_dyn_run rest r3 f B hI3 hL3
+        (hE3.pureBound hB) (by omega)
+      refine ⟨r', .run node obs new :: ran, by simp [hrn, hrun], hI, ?_, ?_⟩
+      · simpa using hE3.trans hE
+      · simpa [runIds] using hsub
+    · rw [if_neg hd] at hL ⊢
+      have hd' : n.dirty = false := by simpa using hd
+      obtain ⟨r', ran, hrun, hI, hE, hsub⟩ := propagateLoop_dyn_run rest _ f B (h.skip hn hd') hL hB2 (by omega)
+      refine ⟨r', ran, hrun, hI, ?_, hsub.cons _⟩
+      simpa using hF.evolves.toD.trans hE
+
+/-! ### 10. the static hypothesis implies the trace hypothesis -/
+
+/-- every pending node that a pending computation can read on ANY branch is already one of its
+dependencies (so it is earlier in the schedule) -/
+def LateOk (r : Root) (Pn : List Id) : Prop :=
+  ∀ c ∈ Pn, ∀ d ∈ allReadsOf r c, d ∈ Pn → d ∈ depsOf r c
+
+theorem readsNow_subset (r : Root) (j : Id) : ∀ d ∈ readsNow r j, d ∈ allReadsOf r j := by
+  intro d hd
+  unfold readsNow at hd
+  unfold allReadsOf
+  split at hd
+  · split at hd
+    · exact trackedReads_subset _ d hd
+    · cases hd
+  · cases hd
+
+theorem EvolvesD.allReadsOf_eq {r r' : Root} {ran : List Event} (h : EvolvesD r r' ran) (j : Id) :
+    allReadsOf r' j = allReadsOf r j := by
+  unfold allReadsOf
+  cases hm : r.get? j with
+  | none => rw [h.dead j hm]
+  | some m => obtain ⟨m', hm', c1, _⟩ := h.node j m hm; simp only [hm', c1]
+
+theorem EvolvesD.depsOf_eq {r r' : Root} {ran : List Event} (h : EvolvesD r r' ran) {j : Id}
+    (hj : j ∉ runIds ran) : depsOf r' j = depsOf r j := by
+  unfold depsOf
+  cases hm : r.get? j with
+  | none => rw [h.dead j hm]
+  | some m => obtain ⟨m', hm', _, _, _, _, _, c7⟩ := h.node j m hm; simp only [hm', (c7 hj).2]
+
+/-- `LateOk` for the rest of the schedule after the head has been processed -/
+theorem LateOk.tail {r r' : Root} {ran : List Event} {node : Id} {rest : List Id}
+    (hE : EvolvesD r r' ran) (hran : ∀ j ∈ runIds ran, j = node) (hnot : node ∉ rest)
+    (h : LateOk r (node :: rest)) : LateOk r' rest := by
+  intro c hc d hd hdr
+  have hcn : c ∉ runIds ran := fun hm => hnot (hran c hm ▸ hc)
+  rw [hE.allReadsOf_eq] at hd
+  rw [hE.depsOf_eq hcn]
+  exact h c (by simp [hc]) d hd (by simp [hdr])
+
+/-- under `LateOk` the head of the schedule reads no pending node -/
+theorem LateOk.head {r : Root} {node : Id} {rest : List Id} (hI : LoopInvD r (node :: rest))
+    (h : LateOk r (node :: rest)) {r2 : Root} (hF : Frame r r2) :
+    ∀ d ∈ readsNow r2 node, d ∉ rest := by
+  intro d hd hdr
+  obtain ⟨hnot, _, hsch⟩ := hI.sched
+  have hd' := readsNow_subset r2 node d hd
+  rw [hF.evolves.toD.allReadsOf_eq] at hd'
+  have hdep := h node (by simp) d hd' (by simp [hdr])
+  exact hnot (Sched.mem_of_dep hsch d hdr node hdep)
+
+theorem lateOk_noLateRun : ∀ (Pn : List Id) (r : Root) (fuel B : Nat), LoopInvD r Pn → LateOk r Pn →
+    PureBound r B → Pn.length + B + 4 ≤ fuel → NoLateRun fuel r Pn
+  | [], r, fuel, B, _, _, _, hf => by
+    obtain ⟨f, rfl⟩ : ∃ f, fuel = f + 1 := ⟨fuel - 1, by omega⟩
+    simp [NoLateRun]
+  | node :: rest, r, fuel, B, h, hL, hB, hf => by
+    obtain ⟨f, rfl⟩ : ∃ f, fuel = f + 1 := ⟨fuel - 1, by omega⟩
+    simp only [List.length_cons] at hf
+    obtain ⟨n, hn⟩ := Root.alive_iff.1 (h.pend node (by simp))
+    have hF := Frame.setMark hn .none
+    have hB2 := hF.evolves.toD.pureBound hB
+    have hnot := h.sched.1
+    simp only [NoLateRun, hn]
+    by_cases hd : n.dirty = true
+    · rw [if_pos hd]
+      have hlate := hL.head h hF
+      obtain ⟨r3, obs, new, hrn, hI3, hE3⟩ := h.step_run (f := f) hn hd hB (by omega) hlate
+      refine ⟨hlate, ?_⟩
+      rw [hrn]
+      exact lateOk_noLateRun rest r3 f B hI3 (hL.tail hE3 (by simp [runIds]) hnot)
+        (hE3.pureBound hB) (by omega)
+    · rw [if_neg hd]
+      have hd' : n.dirty = false := by simpa using hd
+      exact lateOk_noLateRun rest _ f B (h.skip hn hd')
+        (hL.tail hF.evolves.toD (by simp [runIds]) hnot) hB2 (by omega)
+
+/-- **the propagation loop under the static hypothesis** -/
+theorem propagateLoop_dyn (Pn : List Id) (r : Root) (fuel B : Nat) (hI : LoopInvD r Pn)
+    (hL : LateOk r Pn) (hB : PureBound r B) (hf : Pn.length + B + 4 ≤ fuel) :
+    ∃ r' ran, propagateLoop fuel r Pn = .ok r' ∧ LoopInvD r' [] ∧ EvolvesD r r' ran ∧
+      (runIds ran).Sublist Pn :=
+  propagateLoop_dyn_run Pn r fuel B hI (lateOk_noLateRun Pn r fuel B hI hL hB hf) hB hf
+
+/-! ### 11. scheduling: `visitStarts` for one start node, from `Up` and `NoDangling` only -/
+
+/-- `visitStarts_static` + `visitStarts_reach` without the static node shape: on an unmarked arena
+whose subscriber edges go up and do not dangle, the first loop of `propagate_node_updates` for the
+single start node `s` does not fail and schedules exactly the nodes reachable from `s` -/
+theorem visitStarts_sched {r : Root} {s : Id} (hu : Up r) (hnd : NoDangling r) (hm : Unmarked r)
+    (hs : r.alive s = true) :
+    ∃ rD buf, visitStarts r [] [s] = .ok (markDependentsDirty rD s, buf) ∧ Scheduled r s rD buf ∧
+      ∀ i, i ∈ buf ↔ Reach r s i := by
+  have hNT : NoTemp r := fun i n hi ht => by rw [hm i n hi] at ht; cases ht
+  have hI : DInv r [] := ⟨hNT, fun i n hi hp => by rw [hm i n hi] at hp; cases hp⟩
+  obtain ⟨rD, buf, hdfs⟩ := dfs_total hu hNT [] s
+  obtain ⟨hP, _⟩ := dfs_post hdfs
+  obtain ⟨hD, hin⟩ := dfs_topological hI hdfs
+  obtain ⟨hN, hB⟩ := dfs_nodup List.nodup_nil (fun i hi => by cases hi) hdfs
+  have hndD := hP.frame.flagsRel.edges.1 hnd
+  have hSch : Scheduled r s rD buf := by
+    refine ⟨hP.frame, hN, hin hs, ?_, ?_, ?_, markDependentsDirty_get? rD s⟩
+    · intro j n hj
+      by_cases hb : j ∈ buf
+      · obtain ⟨n', hn', hp⟩ := hB j hb
+        rw [hj] at hn'; cases hn'; simp [hb, hp]
+      · simp only [hb, if_false]
+        obtain ⟨n0, hn0, _⟩ := hP.frame.get?_bwd hj
+        obtain ⟨n', hn', hmm⟩ := hP.marks j n0 hn0
+        rw [hj] at hn'; cases hn'
+        rcases hmm with e | ⟨_, e⟩
+        · rw [e]; exact hm j n0 hn0
+        · exact absurd (hD.2 j n hj e).1 hb
+    · intro i hi
+      obtain ⟨n, hn, _⟩ := hB i hi
+      exact Root.alive_iff.2 ⟨n, hn⟩
+    · intro i hi n hn d hd
+      obtain ⟨n', hn', hp⟩ := hB i hi
+      rw [hn] at hn'; cases hn'
+      exact (hD.2 i n hn hp).2 d hd ((hndD i n hn).1 d hd)
+  refine ⟨rD, buf, by simp [visitStarts, hdfs], hSch, fun i => ⟨dfs_reach hdfs i, fun hr => ?_⟩⟩
+  have hr' := hSch.frame.reach_fwd hr
+  clear hr
+  induction hr' with
+  | refl => exact hSch.start
+  | step _ hn hd ih => exact (hSch.order _ ih _ hn _ hd).mem_left
+
+/-! ### 12. bounds -/
+
+theorem exists_pureBound (r : Root) : ∃ B, PureBound r B := by
+  have key : ∀ k, ∃ B, ∀ j n eq cl, j < k → r.get? j = some n → n.callback = some (eq, cl) →
+      pureCost cl.body ≤ B := by
+    intro k
+    induction k with
+    | zero => exact ⟨0, fun _ _ _ _ h => absurd h (Nat.not_lt_zero _)⟩
+    | succ k ih =>
+      obtain ⟨B, hB⟩ := ih
+      have hb : ∃ b, ∀ n eq cl, r.get? k = some n → n.callback = some (eq, cl) → pureCost cl.body ≤ b := by
+        cases hk : r.get? k with
+        | none => exact ⟨0, fun _ _ _ h => by cases h⟩
+        | some n =>
+          cases hc : n.callback with
+          | none => exact ⟨0, fun n' _ _ h h' => by cases h; rw [hc] at h'; cases h'⟩
+          | some p =>
+            exact ⟨pureCost p.2.body, fun n' eq cl h h' => by
+              cases h; rw [hc] at h'; cases h'; exact Nat.le_refl _⟩
+      obtain ⟨b, hb⟩ := hb
+      refine ⟨max B b, fun j n eq cl hj hn hc => ?_⟩
+      by_cases hjk : j = k
+      · subst hjk; have := hb n eq cl hn hc; omega
+      · have := hB j n eq cl (Nat.lt_of_le_of_ne (Nat.le_of_lt_succ hj) hjk) hn hc; omega
+  obtain ⟨B, hB⟩ := key r.nodes.size
+  exact ⟨B, fun j n eq cl hn hc => hB j n eq cl (Root.lt_size_of_get? hn) hn hc⟩
+
+/-! ### 13. read-only bodies are pure bodies without branches -/
+
+theorem readOnly_pure {b : Body} (h : ReadOnly b) :
+    PureBody b ∧ pureCost b = roBodyLen b ∧
+    (∀ env, allReads env b = bodyReads env b) ∧
+    (∀ r env, trackedReads r env b = bodyReads env b ∧ pureObs r env b = bodyObs r env b) ∧
+    (∀ self env, ReadHandlesOk self env b → PureHandlesOk self env b) := by
+  fun_induction roBodyLen b with
+  | case1 => simp [PureBody, pureCost, allReads, trackedReads, pureObs, bodyReads, bodyObs, PureHandlesOk]
+  | case2 s rest ih =>
+    obtain ⟨h1, h2⟩ := h
+    obtain ⟨hh, hs⟩ := Option.isSome_iff_exists.1 h1
+    have hs' := Stmt.readHandle?_eq_some.1 hs
+    subst hs'
+    obtain ⟨i1, i2, i3, i4, i5⟩ := ih h2
+    refine ⟨by simp [PureBody, PureStmt, i1], by simp [pureCost, pureCostStmt, i2], fun env => ?_,
+      fun r env => ⟨?_, ?_⟩, fun self env hok => ?_⟩
+    · simp only [allReads, allReadsStmt, bodyReads, Stmt.readHandle?, i3]
+      cases env[hh]? <;> rfl
+    · simp only [trackedReads, trackedReadsStmt, bodyReads, Stmt.readHandle?, (i4 r env).1]
+      cases env[hh]? <;> rfl
+    · simp only [pureObs, pureObsStmt, bodyObs, Stmt.readHandle?, (i4 r env).2]
+      cases env[hh]? <;> rfl
+    · obtain ⟨k1, k2⟩ := hok
+      exact ⟨by simpa [PureHandlesOkStmt] using k1 hh rfl, i5 self env k2⟩
+
 end SycVerif.Reactive
